@@ -108,6 +108,10 @@ def extra_rules(ctx):
             for st in b['s']:
                 if 'd' in st and st['v']['r'] == 'agg' and st['v'].get('variant') == 'Some' and st['d'][0] == 0:
                     blocks.append(bi)
+            # the key may be the result of a call that yields Option<key> (coercion of the literal mapped into the key vector)
+            t = b['t']
+            if t['k'] == 'call' and t.get('d') and t['d'][0] == 0 and not t['d'][1] and re.search(r'Option::<T>::(map|and_then)$', callee_name(t) or ''):
+                blocks.append(bi)
         ctx.require(blocks, f'{extractor}: no `Some(key)` result found')
         per = []
         for bi in blocks:
